@@ -451,6 +451,10 @@ string handle(const string &payload) {
         r = w.dm->UnregisterDevice(static_cast<const ola::AbstractDevice*>(w.devs[d])) ? "1" : "0";
     } else if (o == "NA") {
       w.dm->UnregisterAllDevices();
+    } else if (o == "Q") {
+      // Port::SetPriority called on the port itself (not through the PortManager)
+      if (vh::num(a[1]) < w.ports.size() && w.ports[vh::num(a[1])].port())
+        r = w.ports[vh::num(a[1])].port()->SetPriority(static_cast<uint8_t>(vh::num(a[2]))) ? "1" : "0";
     } else if (o == "F") {
       // a DMX frame from client a[2]: the real OlaServerServiceImpl::UpdateDmxData
       ola::rpc::RpcSession session(NULL);
